@@ -77,6 +77,18 @@ func loadEngine(repo string, patterns []string) (*Engine, error) {
 	return e, nil
 }
 
+func checkPreListed(c *Contract, kind string) bool {
+	if !strings.Contains(kind, ":pre") {
+		return false
+	}
+	for _, n := range c.CheckPre {
+		if strings.Contains(kind, "call:"+n+"#") || strings.Contains(kind, "."+n+"#") {
+			return true
+		}
+	}
+	return false
+}
+
 // initGhosts gives every declared ghost variable its entry value in a fresh state, so that
 // merges, loop heads and whole-state havoc see all of them (a ghost absent from a state
 // used to be read as its entry value even after a merge with a state that had changed it).
@@ -353,7 +365,7 @@ func (e *Engine) verifyFunc1(c *Contract) (res *FuncResult) {
 			if c.PostsOnly {
 				var keep []*Obligation
 				for _, o := range vc.obligs {
-					if o.Cover || strings.HasPrefix(o.Kind, "post:") || strings.HasPrefix(o.Kind, "loop") || strings.HasPrefix(o.Kind, "cases") || strings.Contains(o.Kind, "safety:panic") || strings.HasPrefix(o.Kind, "preserves") || strings.HasPrefix(o.Kind, "assert_") || (os.Getenv("GOVC_PRE") != "" && strings.Contains(o.Kind, ":pre")) {
+					if o.Cover || strings.HasPrefix(o.Kind, "post:") || strings.HasPrefix(o.Kind, "loop") || strings.HasPrefix(o.Kind, "cases") || strings.Contains(o.Kind, "safety:panic") || strings.HasPrefix(o.Kind, "preserves") || strings.HasPrefix(o.Kind, "assert_") || (os.Getenv("GOVC_PRE") != "" && strings.Contains(o.Kind, ":pre")) || checkPreListed(c, o.Kind) {
 						keep = append(keep, o)
 					}
 				}
